@@ -80,13 +80,13 @@ func (s *Server) ExecuteCommand(ctx context.Context, params *protocol.ExecuteCom
 		return nil, fmt.Errorf("hledger not available")
 	}
 
+	// Pick the open document with the smallest path so the choice does not depend on map iteration order.
 	var filePath string
 	s.documents.Range(func(key, _ any) bool {
 		docURI := key.(protocol.DocumentURI)
 		path := uriToPath(docURI)
-		if path != "" {
+		if path != "" && (filePath == "" || path < filePath) {
 			filePath = path
-			return false
 		}
 		return true
 	})
